@@ -8,7 +8,7 @@ from vlib import Verdict
 
 PID = "C03"
 FAULTS = ["dropreq", "dropresp", "regionerr:NotLeader", "regionerr:EpochNotMatch", "regionerr:ServerIsBusy", "regionerr:StaleCommand"]
-HOOKS = ["split", "expire_resolve", "push_min_commit"]
+HOOKS = ["split", "expire_resolve", "push_min_commit", "reader_clockjump"]
 
 
 def undetermined_justified(r):
@@ -94,6 +94,12 @@ def main(tier, replay):
             for fk in FAULTS:
                 cases.append(mk(f"{tag}-{i}-{fk}", sh, mode, pess, faults=[{"at": i, "kind": fk}]))
             for hk in HOOKS:
+                if hk == "reader_clockjump":
+                    # the reader meets ONE key's lock (so also a secondary's before the primary's), and its clock jumps by
+                    # an hour while the status check is on its way back
+                    for kk in sh["keys"]:
+                        cases.append(mk(f"{tag}-{i}-{hk}@{kk}", sh, mode, pess, extras=[{"at": i, "what": hk, "k": kk}]))
+                    continue
                 cases.append(mk(f"{tag}-{i}-{hk}", sh, mode, pess, extras=[{"at": i, "what": hk, "k": ""}]))
             # the request is applied, its answer is lost, and only then the region is split: the retry is re-split
             cases.append(mk(f"{tag}-{i}-dropresp+aftersplit", sh, mode, pess, faults=[{"at": i, "kind": "dropresp"}],
